@@ -33,7 +33,9 @@ inline std::string gen_name(Tape& t, size_t maxlen = 24) {
 		case 2: s.push_back(char('A' + t.below(26))); break;
 		case 3: s.push_back(char('0' + t.below(10))); break;
 		case 4: { const char* p = name_punct(); s.push_back(p[t.below(strlen(p))]); break; }
-		default: s.push_back(t.flag() ? 'a' : 'A'); break;
+		default: { uint8_t b = t.u8();   // mostly 'a' / 'A'; one in sixteen: a byte (sequence) >= 0x80 - UTF-8 letters, a combining mark, lone 0x80 / 0xFF
+			if ((b & 0xF0) == 0xF0) { static const char* hi[8] = {"\xC3\xA9", "\xCC\x81", "\x80", "\xFF", "\xE2\x82\xAC", "\xC3\x89", "\xDF", "\xA0"}; s += hi[(b >> 1) & 7]; }
+			else s.push_back((b & 1) ? 'a' : 'A'); break; }
 		}
 	}
 	if (s == "." || s == "..") s += "x";
@@ -96,7 +98,7 @@ inline std::vector<InFile> gen_files(Tape& t, size_t maxFiles) {
 		f.name = gen_name(t);
 		// one later name in four extends an earlier one (possibly in another letter case): prefix-related names sit next to each other in the
 		// sorted index and are where a lookup or comparison that stops at the shorter length goes wrong
-		if (i && t.below(4) == 0) { const std::string& base = fs[t.below(fs.size())].name; if (base.size() < 40) f.name = case_variant(base, t.u8()) + t.pick<std::string>({".txt", ".old", "x", "_", "0", ".", " "}); }
+		if (i && t.below(4) == 0) { const std::string& base = fs[t.below(fs.size())].name; if (base.size() < 40) f.name = case_variant(base, t.u8()) + t.pick<std::string>({".txt", ".old", "x", "_", "0", ".", " ", "\xCC\x81", "\xFF", "\x80z", "\xC3\xA9.txt"}); }
 		// one later name in ten is the 'twin' of an earlier one: the same text with '{' for '[', '}' for ']' or '~' for '^' (bytes that a sloppy
 		// case fold maps onto each other); the two are different members and every lookup must keep them apart
 		if (i && t.below(10) == 0) {
@@ -117,8 +119,16 @@ inline void materialise(std::vector<InFile>& fs, Tape& t) {
 	for (auto& f : fs) { mkdirs("%in/" + f.dir); f.dir = "%in/" + f.dir; write_file(f.dir + f.name, f.content); f.spelled = spell(t, f); }
 }
 
+// The listing an archive under test was found to have (set only when names hold bytes >= 0x80, whose rank relative to ASCII is the
+// implementation's choice and has been judged by refvol::order_consistent): expected_order() then follows it instead of the unsigned-byte reference order.
+inline std::vector<std::string>& adopted_listing() { static std::vector<std::string> l; return l; }
 inline std::vector<size_t> expected_order(const std::vector<InFile>& fs) {
 	std::vector<size_t> idx(fs.size());
+	if (adopted_listing().size() == fs.size() && !fs.empty()) {
+		std::vector<char> used(fs.size(), 0); bool ok = true;
+		for (size_t k = 0; k < fs.size() && ok; ++k) { ok = false; for (size_t i = 0; i < fs.size(); ++i) if (!used[i] && fs[i].name == adopted_listing()[k]) { idx[k] = i; used[i] = 1; ok = true; break; } }
+		if (ok) return idx;
+	}
 	for (size_t i = 0; i < idx.size(); ++i) idx[i] = i;
 	std::sort(idx.begin(), idx.end(), [&](size_t a, size_t b) { return refvol::icmp(fs[a].name, fs[b].name) < 0; });
 	return idx;
